@@ -29,12 +29,12 @@ struct CompDesc {
 const std::vector<CompDesc>& comps() {
   static const std::vector<CompDesc> v = {
       {"FileGraphWriter", run_writer, {0, 1, 2, 4, 8, 12, 16}, false, 5, 12},
-      {"FileGraph.copy", run_copy, {0, 2, 4, 8, 12, 16}, true, 3, 6},
-      {"FileGraph.fromGraph", run_fromgraph, {2, 4, 8, 12, 16}, true, 3, 4},
+      {"FileGraph.copy", run_copy, {0, 1, 2, 4, 8, 12, 16}, true, 3, 6},
+      {"FileGraph.fromGraph", run_fromgraph, {1, 2, 4, 8, 12, 16}, true, 3, 4},
       {"FileGraph.fromFile", run_fromfile, {0, 1, 2, 4, 8, 12, 16}, true, 3, 1},
-      {"FileGraph.fromFileInterleaved", run_fromfile, {0, 2, 4, 8, 12}, true, 2, 1},
+      {"FileGraph.fromFileInterleaved", run_fromfile, {0, 1, 2, 4, 8, 12, 16}, true, 2, 1},
       {"FileGraph.partFromFile", run_partfromfile, {0, 1, 2, 4, 8, 12, 16}, true, 5, 2},
-      {"FileGraph.v2layout", run_v2layout, {2, 4, 8, 12, 16}, true, 1, 1},
+      {"FileGraph.v2layout", run_v2layout, {1, 2, 4, 8, 12, 16}, true, 1, 1},
       {"OCFileGraph", run_ocfile, {0, 1, 2, 4, 8, 12, 16}, false, 3, 1},
       {"OCImmutableEdgeGraph", run_ocgraph, {0, 4, 8, 12}, false, 3, 4},
       {"OfflineGraph", run_offline, {0, 1, 2, 4, 8, 12, 16}, true, 3, 2},
@@ -142,14 +142,6 @@ int main(int argc, char** argv) {
     // force the edge-count parity (add one edge; an empty node set cannot have edges)
     if (g.numNodes && (g.numEdges() % 2) != (c.odd ? 1u : 0u))
       g.addEdge(rng.below(g.numNodes), rng.below(g.numNodes));
-    // version 2, odd, data: keep the no-pad file length off a page boundary. Readers that skip a
-    // pad word read (and fromArrays writes) 8 bytes past the end there, which would fault or
-    // silently corrupt the harness instead of producing a comparable result.
-    if (c.version == 2 && c.width && (g.numEdges() % 2))
-      while ((32 + 8 * g.numNodes + (8 + c.width) * g.numEdges()) % 4096 == 0) {
-        g.addEdge(0, 0);
-        g.addEdge(0, 0);
-      }
     ref::assign_data(g, rng.next(), mode == ref::DataMode::Zero ? ref::DataMode::Unique : mode, c.width);
     c.odd = g.numEdges() % 2;
     if (isLayout && !c.odd) { // empty node set: nothing to disagree about
@@ -159,8 +151,6 @@ int main(int argc, char** argv) {
     c.g   = std::move(g);
     c.rng = verif::Rng(rng.next());
     const uint64_t n = c.g.numNodes, m = c.g.numEdges();
-    if (std::string(cd->name) == "OCImmutableEdgeGraph" && n == 0)
-      c.variant &= ~2u; // keepInMemory() on a graph without nodes is not exercised
     unsigned threads = 1 + (unsigned)rng.below(maxT);
     galois::setActiveThreads(threads);
 
@@ -179,7 +169,7 @@ int main(int argc, char** argv) {
           J().kv("edges_compared", c.edgesCompared).kv("nodes_compared", c.nodesCompared).kv("files_decoded_by_reference", c.filesDecoded)
               .kv("files_written_by_library", c.filesWrittenByLib).kv("library_reads", c.libReads).kv("sub_ranges_read", c.partRanges)
               .kv("oc_segments_loaded", c.segments).kv("nodes_same_order", c.orderSame).kv("nodes_other_order", c.orderDiff)
-              .kv("v2_cases", (int)(c.version == 2)).kv("v2_odd_with_data_both_conventions", c.v2BothConventions)
+              .kv("v2_cases", (int)(c.version == 2)).kv("v2_odd_edge_count_with_data_cases", (int)(c.version == 2 && c.odd && c.width))
               .kv("odd_edge_count_with_data_cases", (int)(c.odd && c.width)).kv("oracle_violations", (uint64_t)c.fired.size()).str());
   }
   rmTree(dir);
